@@ -185,6 +185,50 @@ def rule_s6_memo(chk: Check, ir, tr):
     chk.units["set_expr_context_on_rule_results"] = n
 
 
+def rule_s8(chk: Check, ix, rule_id: str = "S8-complex-parts"):
+    """The two sides of a complex literal in a match pattern (`case -1.5 + 2j:`): the left one must be a real number, the right
+    one an imaginary one — compile() refuses anything else ("patterns may only match literals and attribute lookups").  Decided
+    by evaluating the two guards over number values, zero-valued imaginary literals included."""
+    from .. import constfold
+
+    class Fake:
+        def __init__(self, v):
+            self.v = v
+
+        def literal_value(self, tok):
+            return self.v
+
+        def raise_syntax_error_known_location(self, *a, **k):
+            raise constfold.Raised("syntax error")
+
+        raise_syntax_error = raise_raw_syntax_error = raise_syntax_error_known_range = raise_syntax_error_known_location
+    ev = constfold.builder_expr_eval(("literal_value", "raise_syntax_error_known_location", "raise_syntax_error", "raise_raw_syntax_error",
+                                      "raise_syntax_error_known_range"))
+    SAMPLES = [0, 1, 7, 0.0, 1.5, 1e3, 0j, 0.0j, 1j, 2.5j]
+    for q, want_ok in (("Parser.ensure_real", lambda v: not isinstance(v, complex)), ("Parser.ensure_imaginary", lambda v: isinstance(v, complex))):
+        f = ix.get(q)
+        params = [a.arg for a in f.node.args.args]
+        bad = []
+        chk.count(rule_id)
+        try:
+            for v in SAMPLES:
+                try:
+                    got = constfold.eval_pure_function(f.node, {params[0]: Fake(v), params[1]: object()}, expr_eval=ev)
+                    accepted = True
+                    if got is not v and got != v:
+                        bad.append((v, f"returns {got!r}"))
+                except constfold.Raised:
+                    accepted = False
+                if accepted != want_ok(v):
+                    bad.append((repr(v), "accepted" if accepted else "refused"))
+        except constfold.PureEvalError as e:
+            chk.undecided(rule_id, q, f.where, f"outside the evaluable subset: {e}")
+            continue
+        chk.require(not bad, rule_id, q, f.where,
+                    f"`{q.split('.')[1]}` must accept exactly the {'real' if 'real' in q else 'imaginary'} numbers; differs on {bad[:4]} "
+                    f"(a complex literal part of the wrong kind — `0j + 1j` — builds a BinOp pattern that compile() rejects with ValueError)")
+
+
 def run(chk: Check):
     chk.explanation = (
         "Every ast.X(...) construction reachable from a grammar action (in the generated parser and, through call-site "
@@ -211,6 +255,9 @@ def run(chk: Check):
     rule_s6_memo(chk, ir, tr)
     from ..pyflow import Index
     rule_s3_recursion(chk, Index())
+    rule_s8(chk, Index())
+    from .c02 import rule_x7
+    rule_x7(chk)  # what CPython's grammar refuses before compile() (e.g. `**_` in a mapping pattern) must be refused here too
     from .. import macros
     from .c07 import rule_m1
     rule_m1(chk, Index())          # spans of the synthetic raw-capture tokens end up as node spans
